@@ -349,6 +349,11 @@ def build_corpus():
     add('ppath', 'lazy', pathlib.PurePosixPath('/a/b/c'))
     add('wpath', 'lazy', pathlib.PureWindowsPath('c:/a'))
     add('path_long', 'lazy', pathlib.PurePosixPath('/' + '/'.join('seg%d' % i for i in range(15))), dict(width=30))
+    # the same characters as a path and as a plain string, at the same line budget (the path printer splits at '/')
+    path_text = '/data/warehouse/region=eu-west-1/year=2024/month=02/part-00017.snappy.parquet-checksum.sha256'
+    add('path_text_as_path', 'equal', pathlib.PurePosixPath(path_text), dict(width=40))
+    add('path_text_as_str', 'equal', path_text, dict(width=40))
+    add('path_text_both', 'equal', [path_text, pathlib.PurePosixPath(path_text)], dict(width=44))
     add('partial', 'lazy', functools.partial(int, base=2))
     add('partialmethod', 'lazy', functools.partialmethod(int, 1))
     add('mproxy', 'lazy', types.MappingProxyType({'a': 1}))
